@@ -97,3 +97,29 @@ Theorem gen_C08_commands : forall cfg,
   /\ (forall m, go_client_Conn_Authenticate m = E MAuthenticate cfg [m]).
 Proof. exact go_commands_eq. Qed.
 Print Assumptions gen_C08_commands.
+
+(* the wire below the command methods: the Gallina TRANSLATION of the write method of Conn frames
+   each line it is given with exactly one CRLF (generated-code tie, stage 6; the same statement as
+   gen_C09_write_bytes), and the socket has a single writer: only the send goroutine calls
+   conn.write, and no function beyond connection set-up, tear-down, the reader and the writer
+   touches the buffered socket conn.io (source facts regenerated on every run).  A second
+   writer could interleave its bytes with a line in flight, and caller-supplied text would then
+   start a line of its own. *)
+From Coq Require Import String.
+From Verif Require Import GenEqWrite Facts.
+Theorem gen_C08_write_bytes : forall flood bad last line a a' iow ioe,
+  exists r, go_client_Conn_write bad flood last line a a' iow ioe = Ok r
+  /\ written (ws_io r) = wire_of [line]
+  /\ ws_err r = (snd iow || ioe).
+Proof.
+  intros. eexists. split; [apply go_write_eq|].
+  destruct (write_spec_io flood bad last line a a' iow ioe) as (H1 & _ & H3). split; assumption.
+Qed.
+Print Assumptions gen_C08_write_bytes.
+
+Lemma tie_C08_single_writer :
+  conn_write_callers_client = ["Conn.send"%string]
+  /\ conn_io_users_client
+     = ["Conn.closeIf"; "Conn.initialise"; "Conn.postConnect"; "Conn.recv"; "Conn.runLoop";
+        "Conn.send"; "Conn.write"]%string.
+Proof. split; vm_compute; reflexivity. Qed.
